@@ -73,13 +73,20 @@ spif_str_t spif_str_dup(spif_str_t self)
 }
 # endif
 #endif
-#include "src/url.c"
+#if defined(U_PLAIN) && defined(VERIF_NATIVE)
+# include "rawsrc/url.c"
+#else
+# include "src/url.c"
+#endif
 #ifndef U_PLAIN
 #define NET_URL_API
 #include "url.h"
 #endif
 
 #ifdef U_PLAIN
+#ifndef VCAP
+# define VCAP 0x3fffffffL
+#endif
 #define DCAP 64          /* native replay rebuilds texts up to this length */
 static spif_str_t mk_str(_Bool has, long len, long slack, char pat)
 {
@@ -87,8 +94,9 @@ static spif_str_t mk_str(_Bool has, long len, long slack, char pat)
     if (!has) return NULL;
     p = malloc(sizeof(spif_const_str_t));
     __CPROVER_assume(len >= 0 && slack >= 0 && len < VCAP && slack < VCAP);
-#ifdef VERIF_NATIVE
-    if (len > DCAP || slack > DCAP) exit(0);
+#ifdef VERIF_NATIVE              /* the witness' lengths may be huge: replay the same shape with short texts */
+    if (len > DCAP) len = DCAP - (len % 7);
+    if (slack > DCAP) slack = slack % 5;
 #endif
     p->parent.cls = SPIF_CLASS_VAR(str);
     p->len = len; p->size = len + 1 + slack;
